@@ -90,6 +90,12 @@ func main() {
 		fmt.Fprintln(os.Stderr, "usage: worker <family>")
 		os.Exit(3)
 	}
+	if s := os.Getenv("VERIF_WATCHDOG"); s != "" {
+		// seconds after which a single library call counts as a hang (the quick tier waits less long for each one)
+		if v, err := strconv.Atoi(s); err == nil && v > 0 {
+			watchdog = time.Duration(v) * time.Second
+		}
+	}
 	if s := os.Getenv("VERIF_SEED"); s != "" {
 		if v, err := strconv.ParseInt(s, 10, 64); err == nil {
 			Seed = v
